@@ -189,6 +189,27 @@ def run(replay=None):
                            "a type with an embedded interface and an unexported method; nil or holding a real implementation) and 1-2 builders: mock by Apply (capturing closure with a finalizer "
                            "witness) or As+Return, call any method of any variable, Reset, drop the builder, GC with heap churn; non-trivial = contains a mock and a call; distinct by ops")
     ck.coverage["samples"] = [{"init": H["h"]["init"], "ops": [{k: v for k, v in o.items() if k not in ("kind", "h", "i")} for o in H["ops"][:6]]} for H in hs[:2]]
+    # A call through a STALE fake is outside the property: the variable holds the fabricated value of a context that was
+    # cancelled. That is reachable only when two builders mock one variable and are reset out of order (the later Reset
+    # "restores" the other builder's fake), where "the value before mocking" is not well defined; what such a call does
+    # depends on the kind of the dead stub (an As+Return stub of a cancelled mocker has lost its values). Histories are
+    # judged and compared up to the first such call.
+    cut = 0
+    for H in hs:
+        h = H["h"]
+        s0 = State(["nil" if x == 0 else ("real", x) for x in h["init"]], h["nmeth"], lambda v: v)
+        for i, o in enumerate(H["ops"]):
+            if o["op"] == "mock":
+                s0.mock(o["b"], o["v"], o["m"], kept=o.get("kept", False))
+            elif o["op"] == "reset":
+                s0.reset(o["b"])
+            elif o["op"] == "call":
+                w = s0.vars[o["v"]]
+                if w != "nil" and w[0] == "fake" and s0.ctxs[w[1]].canceled:
+                    H["ops"] = H["ops"][:i]
+                    cut += 1
+                    break
+    ck.notes["histories_cut_at_a_call_through_a_stale_fake"] = cut
     for H in hs:
         judge(ck, H)
     # correspondence with the Coq model (key_of = the variable, every closure retained by its context)
